@@ -70,6 +70,7 @@ class Contract:
     note: str = ""
     self_cls: str | None = None        # for methods: class of `self`
     max_paths: int = 4000
+    shards: int = 1                    # split the discharge of this unit over that many pool processes
 
     def clause(self, c):
         return c if isinstance(c, Clause) else Clause(c)
